@@ -164,8 +164,21 @@ class C09(common.Spec):
             if case.get('async_init_error'):
                 AI('ai', initdef=1)
             if case.get('restore_error') and sie != 'via_restore':
-                circuit.set_persistent_data({"<Counter 'cnt'>": 'not a number', 'edzed-stop-time': 1.0})
-                edzed.Counter('cnt', persistent=True)
+                # restoring the saved state fails - with an exception of ANY class: only logged
+                exc_cls = {True: ValueError, 'runtime': RuntimeError, 'os': OSError, 'custom': Tagged,
+                           'circuit': edzed.EdzedCircuitError, 'key': KeyError}[case['restore_error']]
+
+                class RB(edzed.AddonPersistence, edzed.SBlock):
+                    def _restore_state(self, state):
+                        raise exc_cls(4711)
+
+                    def get_state(self):
+                        return self.output
+
+                    def init_regular(self):
+                        self.set_output(0)
+                circuit.set_persistent_data({"<RB 'rb'>": 5, 'edzed-stop-time': 1.0})
+                RB('rb', persistent=True)
             edzed.Event('_ctrl', 'abort')          # makes the control block exist
             orig_abort = circuit.abort
 
@@ -387,7 +400,7 @@ def gen_case(rng):
         sups.append([rng.choice(grid), what, tag])
         tag += 1
     return dict(events=events, sups=sups, tail_us=rng.choice([0, 150_000]),
-                async_init_error=rng.random() < 0.15, restore_error=rng.random() < 0.15,
+                async_init_error=rng.random() < 0.15, restore_error=rng.choice([False] * 17 + [True, 'runtime', 'os', 'custom', 'circuit', 'key']),
                 stop_error=rng.choice([False] * 11 + [True, 'async']),
                 sync_init_error=rng.choice([None] * 12 + ['direct', 'via_restore', 'via_async', 'abort_in_init']))
 
